@@ -43,6 +43,7 @@ type c40Case struct {
 	Trickle   bool           `json:"trickle,omitempty"`
 	Pollers   int            `json:"pollers,omitempty"` // extra goroutines that call GetStats and the getters in a tight loop
 	PreDC     int            `json:"pre_dc,omitempty"`  // data channels created before signaling starts (they are opened when SCTP comes up)
+	DCStorm   int            `json:"dc_storm,omitempty"` // extra goroutines that each create 25 data channels in a tight loop (writers on the SCTP transport's lock)
 	SchedSeed uint64         `json:"sched_seed,omitempty"`
 	Strat     simrt.Strategy `json:"strat"`
 	NetSeed   uint64         `json:"net_seed"`
@@ -56,6 +57,7 @@ func c40Gen(seed uint64, idx, total int, tier string) any {
 	c := &c40Case{Rounds: r.Range(1, 3), Trickle: r.Bool(0.3), SchedSeed: r.U64(), Strat: vfGenStrategy(r), NetSeed: r.U64()}
 	if r.Bool(0.4) {
 		c.Pollers, c.PreDC = r.Range(1, 3), vfPick(r, []int{0, 4, 16, 40})
+		c.DCStorm = vfPick(r, []int{0, 0, 4, 12})
 	}
 	nw := r.Range(2, 6)
 	closer := -1
@@ -322,6 +324,24 @@ func c40RunRace(t *testing.T, cj []byte, res *vfResult) {
 				}
 				if n%16 == 15 {
 					time.Sleep(200 * time.Microsecond)
+				}
+			}
+		}()
+	}
+	for i := 0; i < c.DCStorm && i < 16; i++ {
+		i := i
+		pollWG.Add(1)
+		go func() {
+			defer pollWG.Done()
+			for n := 0; n < 25; n++ {
+				select {
+				case <-pollStop:
+					return
+				default:
+				}
+				_, _ = a.pc.CreateDataChannel(fmt.Sprintf("storm%d-%d", i, n), nil)
+				if n%4 == 3 {
+					time.Sleep(100 * time.Microsecond)
 				}
 			}
 		}()
